@@ -145,6 +145,8 @@ def direct_ambient(prog: Program, f: FuncInfo) -> set[str]:
             for s in T.walk(tm):
                 if s[0] == "ref" and s[1] in AMBIENT:
                     out.add(s[1])
+                elif s[0] == "ref" and any(s[1].startswith(a + ".") for a in ("sys.modules", "os.environ")):
+                    out.add(s[1].rsplit(".", 1)[0])  # a method of the ambient mapping (`sys.modules.get`)
                 if s[0] == "call" and s[1][0] == "attr" and s[1][2] in ("now", "today", "utcnow") and s[1][1] in (C.sattr("t"), C.sattr("origin")):
                     out.add("datetime.now (via self.t)")
                 if s[0] == "attr" and s[2] in ("f_back", "f_globals", "f_locals"):
@@ -152,17 +154,32 @@ def direct_ambient(prog: Program, f: FuncInfo) -> set[str]:
     return out
 
 
+_DIRECT_AMBIENT: dict = {}
+
+
 def ambient_reads(prog: Program, f: FuncInfo, depth: int = 3, _seen=None) -> set[str]:
-    _seen = _seen if _seen is not None else set()
-    if f.qualname in _seen:
-        return set()
-    _seen.add(f.qualname)
-    out = {f"{a} in {f.qualname}" for a in direct_ambient(prog, f)}
-    if depth > 0:
-        for cn in callees(prog, f):
-            g = prog.functions.get(cn)
-            if g is not None:
-                out |= ambient_reads(prog, g, depth - 1, _seen)
+    """Ambient sources read by `f` or by any in-package function it reaches through at most `depth` calls.  Breadth first, so
+    the set is the same whatever order the callees are enumerated in (a depth-limited depth-first walk with a shared
+    visited set is not: a function first met deep down would be cut short and never re-explored from a shorter chain)."""
+    out: set[str] = set()
+    seen = {f.qualname}
+    frontier = [f]
+    for level in range(depth + 1):
+        nxt = []
+        for g in frontier:
+            key = (id(prog), g.qualname)
+            if key not in _DIRECT_AMBIENT:
+                _DIRECT_AMBIENT[key] = direct_ambient(prog, g)
+            out |= {f"{a} in {g.qualname}" for a in _DIRECT_AMBIENT[key]}
+            if level < depth:
+                for cn in sorted(callees(prog, g)):
+                    h = prog.functions.get(cn)
+                    if h is not None and cn not in seen:
+                        seen.add(cn)
+                        nxt.append(h)
+        frontier = nxt
+        if not frontier:
+            break
     return out
 
 
